@@ -119,6 +119,9 @@ func genC19(t *rapid.T, concurrent bool) C19Case {
 				r.Headers = append(r.Headers, model.H{K: "Accept-Encoding", V: rapid.SampledFrom([]string{"gzip", "deflate"}).Draw(t, "ae")})
 			}
 		}
+		if rapid.IntRange(0, 7).Draw(t, "inject") == 0 {
+			r.Headers = append(r.Headers, model.H{K: "X-Inject", V: "i" + strconv.Itoa(i)})
+		}
 		if r.Body != "" && rapid.IntRange(0, 3).Draw(t, "gzbody") == 0 {
 			c.GzBody = append(c.GzBody, i)
 		}
@@ -145,6 +148,13 @@ func genC19(t *rapid.T, concurrent bool) C19Case {
 
 func buildC19(c C19Case) (*restful.Container, interface{}) {
 	echo := func(id string, req *restful.Request, resp *restful.Response) {
+		// a request may add a binding of its own to the map it was handed (filters do that to
+		// pass values on); it belongs to this request only
+		if v := req.Request.Header.Get("X-Inject"); v != "" {
+			if m := req.PathParameters(); m != nil {
+				m["injected"] = v
+			}
+		}
 		var ps []string
 		for k, v := range req.PathParameters() {
 			ps = append(ps, k+"="+v)
